@@ -31,7 +31,6 @@ def CompressedSimOnZ (sd : ByteArray) (G : St → Prop) : Prop :=
       ∃ X s', Run sd (fin (readPrefixCodes s1)) X s' ∧ RelZ ws s' st' ds' (del ++ X) ∧
         s'.step = .blockHeader ∧ s'.last = s1.last ∧ st'.bits.length ≤ st1.bits.length
     | (.error _, st') =>
-      st1.bits.length + st'.out.size < 2 ^ 24 →
       ∃ X e, Trace sd (fin (readPrefixCodes s1)) X e ∧ e ≠ .eof ∧ Agree (del ++ X) st'.out.toList
 
 /-- compressed meta-blocks simulated wherever they occur. -/
